@@ -7,6 +7,8 @@ import Mathlib.Algebra.Order.Field.Basic
 import Mathlib.Tactic.Ring
 import Mathlib.Tactic.Linarith
 import Mathlib.Analysis.Matrix.Order
+import Mathlib.Data.List.NodupEquivFin
+import Mathlib.Data.List.Flatten
 /-!
 # Lemmas for the NPA part of C07: `_reduce` preserves the value of a word under every deterministic strategy,
 the generated words are reduced and non-trivial, and the point `(z zᵀ, K)` of a deterministic strategy satisfies
@@ -437,27 +439,44 @@ def Sat (psd : Prop) (ao bo : Nat) (R : Nat → Nat → α) (K : Nat → Nat →
 
 end SatDef
 
-/-! ### the entry constraints at the point of a deterministic strategy -/
+/-! ### the entry constraints at a point given by an evaluation of words
 
-section Det
-variable (f g : Nat → Nat) (words : List Word)
+Both kinds of strategies define a point of the relaxation in the same way: a map `ev` from words to values that is
+compatible with `_reduce`, `R[i, j] = ev(words[i]† · words[j])`, and a behaviour `K` that gives the values of the
+words `A`, `B` and `A·B`.  The soundness of the loop is proved once, for every such evaluation. -/
 
-theorem detR_eq_val (i j : Nat) :
-    detR f g words i j = val f g ((wordAt words i).reverse ++ wordAt words j) := by
-  unfold detR detZ
-  rw [val_append, val_reverse]
+section Eval
+variable {α : Type} [Zero α] [One α] [Add α] [LE α]
 
-theorem entryWord_val_ne (i j : Nat) (h : entryWord words i j ≠ []) :
-    val f g (entryWord words i j) = detR f g words i j := by
-  rw [detR_eq_val]
-  exact (reduceFuel_val f g _ _).1 h
+/-- `ev` is an evaluation of words compatible with `_reduce`, `R` its moment matrix on `words`, `K` its behaviour -/
+structure EvalOK (ev : Word → α) (ao bo : Nat) (words : List Word) (R : Nat → Nat → α)
+    (K : Nat → Nat → Nat → Nat → α) : Prop where
+  red_ne : ∀ w, reduceWord w ≠ [] → ev (reduceWord w) = ev w
+  red_nil : ∀ w, reduceWord w = [] → hasMeas w → ev w = 0
+  entry : ∀ i j, R i j = ev ((wordAt words i).reverse ++ wordAt words j)
+  norm : R 0 0 = 1
+  pair : ∀ sa sb : Sym, sa.player = Player.alice → sb.player = Player.bob →
+    ev [sa, sb] = K sa.answer sb.answer sa.question sb.question
+  oneA : ∀ s : Sym, s.player = Player.alice → ev [s] = sumN bo (fun b => K s.answer b s.question 0)
+  oneB : ∀ s : Sym, s.player = Player.bob → ev [s] = sumN ao (fun a => K a s.answer 0 s.question)
 
-theorem entryWord_val_nil (i j : Nat) (h : entryWord words i j = []) (hm : hasMeas (wordAt words i)) :
-    detR f g words i j = 0 := by
-  rw [detR_eq_val]
-  refine (reduceFuel_val f g _ _).2 h ?_
+variable {ev : Word → α} {ao bo : Nat} {words : List Word} {R : Nat → Nat → α} {K : Nat → Nat → Nat → Nat → α}
+
+omit [LE α] in
+theorem EvalOK.entryWord_ne (h : EvalOK ev ao bo words R K) (i j : Nat) (hne : entryWord words i j ≠ []) :
+    ev (entryWord words i j) = R i j := by
+  rw [h.entry]
+  exact h.red_ne _ hne
+
+omit [LE α] in
+theorem EvalOK.entryWord_nil (h : EvalOK ev ao bo words R K) (i j : Nat) (hnil : entryWord words i j = [])
+    (hm : hasMeas (wordAt words i)) : R i j = 0 := by
+  rw [h.entry]
+  refine h.red_nil _ hnil ?_
   obtain ⟨s, hs, hp⟩ := hm
   exact ⟨s, List.mem_append_left _ (List.mem_reverse.mpr hs), hp⟩
+
+end Eval
 
 theorem isMeas_some (w : Word) (sa sb : Sym) (h : isMeas w = some (sa, sb)) :
     w = [sa, sb] ∧ sa.player = Player.alice ∧ sb.player = Player.bob := by
@@ -482,6 +501,158 @@ theorem isMeasOne_some (w : Word) (s : Sym) (h : isMeasOne w = some s) :
       subst h
       exact ⟨rfl, hp⟩
     · simp at h
+
+/-- invariant of the dictionary `seen`: every stored entry has the stored reduced word, and the empty tuple is
+    stored only for the entry `(0, 0)` -/
+def SeenInv (words : List Word) (seen : Seen) : Prop :=
+  ∀ w i0 j0, lookupSeen seen w = some (i0, j0) → entryWord words i0 j0 = w ∧ (w = [] → i0 = 0 ∧ j0 = 0)
+
+theorem seenInv_nil (words : List Word) : SeenInv words [] := by
+  intro w i0 j0 h
+  simp [lookupSeen] at h
+
+theorem pairsUpper_lt (dim : Nat) : ∀ p ∈ pairsUpper dim, p.1 < dim ∧ p.2 < dim := by
+  intro p hp
+  unfold pairsUpper at hp
+  simp only [List.mem_flatMap, List.mem_map, List.mem_range] at hp
+  obtain ⟨i, hi, d, hd, rfl⟩ := hp
+  exact ⟨hi, by simp only; omega⟩
+
+section EvalSound
+variable {α : Type} [Zero α] [One α] [Add α] [LE α]
+variable {ev : Word → α} {ao bo : Nat} {words : List Word} {R : Nat → Nat → α} {K : Nat → Nat → Nat → Nat → α}
+
+theorem entryConstr_sound (psd : Prop) (hev : EvalOK ev ao bo words R K) (hok : WordsOK words) (seen : Seen)
+    (hinv : SeenInv words seen) (i j : Nat) (hi : i < words.length) (hj : j < words.length) :
+    (∀ c, (entryConstr words seen i j).1 = some c → Sat psd ao bo R K c) ∧
+      SeenInv words (entryConstr words seen i j).2 := by
+  unfold entryConstr
+  simp only
+  split
+  · -- zero branch
+    rename_i hz
+    refine ⟨fun c hc => ?_, hinv⟩
+    simp only [Option.some.injEq] at hc
+    subst hc
+    exact hev.entryWord_nil i j hz.2 (hok.good i (Nat.pos_of_ne_zero hz.1) hi).1
+  · rename_i hz
+    have hne_or : i = 0 ∨ entryWord words i j ≠ [] := by
+      by_cases h0 : i = 0
+      · exact Or.inl h0
+      · exact Or.inr (fun h => hz ⟨h0, h⟩)
+    split
+    · -- one Alice and one Bob measurement
+      rename_i sa sb hm
+      refine ⟨fun c hc => ?_, hinv⟩
+      simp only [Option.some.injEq] at hc
+      subst hc
+      obtain ⟨hw, ha, hb⟩ := isMeas_some _ sa sb hm
+      show R i j = K sa.answer sb.answer sa.question sb.question
+      rw [← hev.entryWord_ne i j (by rw [hw]; simp), hw, hev.pair sa sb ha hb]
+    · split
+      · -- one measurement of one player
+        rename_i s hm
+        refine ⟨fun c hc => ?_, hinv⟩
+        simp only [Option.some.injEq] at hc
+        subst hc
+        obtain ⟨hw, hp⟩ := isMeasOne_some _ s hm
+        have hv : R i j = ev [s] := by
+          rw [← hev.entryWord_ne i j (by rw [hw]; simp), hw]
+        split
+        · rename_i hpa
+          show R i j = sumN bo (fun b => K s.answer b s.question 0)
+          rw [hv, hev.oneA s hpa]
+        · rename_i hpa
+          have hpb : s.player = Player.bob := by
+            rcases hp with h | h
+            · exact absurd h hpa
+            · exact h
+          show R i j = sumN ao (fun a => K a s.answer 0 s.question)
+          rw [hv, hev.oneB s hpb]
+      · split
+        · -- same reduced word as an earlier entry
+          rename_i i0 j0 hl
+          refine ⟨fun c hc => ?_, hinv⟩
+          simp only [Option.some.injEq] at hc
+          subst hc
+          obtain ⟨he, hnil⟩ := hinv _ i0 j0 hl
+          show R i j = R i0 j0
+          by_cases hw : entryWord words i j = []
+          · obtain ⟨rfl, rfl⟩ := hnil hw
+            have hi0 : i = 0 := by
+              rcases hne_or with h | h
+              · exact h
+              · exact absurd hw h
+            subst hi0
+            have hj0 : j = 0 := by
+              by_contra hjn
+              exact (hok.good j (Nat.pos_of_ne_zero hjn) hj).2 hw
+            subst hj0
+            rfl
+          · rw [← hev.entryWord_ne i j hw, ← he, hev.entryWord_ne i0 j0 (by rw [he]; exact hw)]
+        · -- new reduced word: remember the entry
+          rename_i hl
+          refine ⟨fun c hc => by simp at hc, ?_⟩
+          intro w i1 j1 h1
+          simp only [lookupSeen] at h1
+          split at h1
+          · rename_i heq
+            simp only [Option.some.injEq, Prod.mk.injEq] at h1
+            obtain ⟨rfl, rfl⟩ := h1
+            refine ⟨heq, fun hw => ?_⟩
+            have hw' : entryWord words i j = [] := by rw [heq]; exact hw
+            have hi0 : i = 0 := by
+              rcases hne_or with h | h
+              · exact h
+              · exact absurd hw' h
+            subst hi0
+            refine ⟨rfl, ?_⟩
+            by_contra hjn
+            exact (hok.good j (Nat.pos_of_ne_zero hjn) hj).2 hw'
+          · exact hinv w i1 j1 h1
+
+theorem loopEntries_sound (psd : Prop) (hev : EvalOK ev ao bo words R K) (hok : WordsOK words) :
+    ∀ (pairs : List (Nat × Nat)) (seen : Seen), SeenInv words seen →
+      (∀ p ∈ pairs, p.1 < words.length ∧ p.2 < words.length) →
+      ∀ c ∈ loopEntries words pairs seen, Sat psd ao bo R K c
+  | [], _, _, _, c, hc => by simp [loopEntries] at hc
+  | (i, j) :: rest, seen, hinv, hp, c, hc => by
+    obtain ⟨hi, hj⟩ := hp (i, j) List.mem_cons_self
+    obtain ⟨hs, hinv'⟩ := entryConstr_sound psd hev hok seen hinv i j hi hj
+    have hrest := loopEntries_sound psd hev hok rest (entryConstr words seen i j).2 hinv'
+      (fun p hp' => hp p (List.mem_cons_of_mem _ hp'))
+    simp only [loopEntries] at hc
+    split at hc
+    · rename_i c' hc'
+      rcases List.mem_cons.mp hc with rfl | h
+      · exact hs _ hc'
+      · exact hrest c h
+    · exact hrest c hc
+
+/-- every constraint on the moment matrix is satisfied by the point of an evaluation of words -/
+theorem momentConstrs_sound_ev (psd : Prop) (hpsd : psd) (hev : EvalOK ev ao bo words R K) (hok : WordsOK words) :
+    ∀ c ∈ momentConstrs words, Sat psd ao bo R K c := by
+  intro c hc
+  unfold momentConstrs at hc
+  rcases List.mem_append.mp hc with h | h
+  · simp only [List.mem_cons, List.not_mem_nil, or_false] at h
+    rcases h with rfl | rfl
+    · exact hev.norm
+    · exact hpsd
+  · exact loopEntries_sound psd hev hok _ [] (seenInv_nil words) (pairsUpper_lt _) c h
+
+end EvalSound
+
+
+/-! ### the entry constraints at the point of a deterministic strategy -/
+
+section Det
+variable (f g : Nat → Nat) (words : List Word)
+
+theorem detR_eq_val (i j : Nat) :
+    detR f g words i j = val f g ((wordAt words i).reverse ++ wordAt words j) := by
+  unfold detR detZ
+  rw [val_append, val_reverse]
 
 theorem val_pair (sa sb : Sym) (ha : sa.player = Player.alice) (hb : sb.player = Player.bob) :
     val f g [sa, sb] = detK f g sa.answer sb.answer sa.question sb.question := by
@@ -514,146 +685,26 @@ theorem sum_detK_alice (ao : Nat) (b x y : Nat) (hf : f x < ao) :
 
 theorem val_single (s : Sym) : val f g [s] = valSym f g s := by simp [val]
 
-/-- invariant of the dictionary `seen`: every stored entry has the stored reduced word, and the empty tuple is
-    stored only for the entry `(0, 0)` -/
-def SeenInv (seen : Seen) : Prop :=
-  ∀ w i0 j0, lookupSeen seen w = some (i0, j0) → entryWord words i0 j0 = w ∧ (w = [] → i0 = 0 ∧ j0 = 0)
-
-theorem seenInv_nil : SeenInv words [] := by
-  intro w i0 j0 h
-  simp [lookupSeen] at h
-
-theorem entryConstr_sound (psd : Prop) (ao bo : Nat) (hok : WordsOK words) (seen : Seen)
-    (hinv : SeenInv words seen) (i j : Nat) (hi : i < words.length) (hj : j < words.length)
-    (hf0 : f 0 < ao) (hg0 : g 0 < bo) :
-    (∀ c, (entryConstr words seen i j).1 = some c → Sat psd ao bo (detR f g words) (detK f g) c) ∧
-      SeenInv words (entryConstr words seen i j).2 := by
-  unfold entryConstr
-  simp only
-  split
-  · -- zero branch
-    rename_i hz
-    refine ⟨fun c hc => ?_, hinv⟩
-    simp only [Option.some.injEq] at hc
-    subst hc
-    exact entryWord_val_nil f g words i j hz.2 (hok.good i (Nat.pos_of_ne_zero hz.1) hi).1
-  · rename_i hz
-    have hne_or : i = 0 ∨ entryWord words i j ≠ [] := by
-      by_cases h0 : i = 0
-      · exact Or.inl h0
-      · exact Or.inr (fun h => hz ⟨h0, h⟩)
-    split
-    · -- one Alice and one Bob measurement
-      rename_i sa sb hm
-      refine ⟨fun c hc => ?_, hinv⟩
-      simp only [Option.some.injEq] at hc
-      subst hc
-      obtain ⟨hw, ha, hb⟩ := isMeas_some _ sa sb hm
-      show detR f g words i j = detK f g sa.answer sb.answer sa.question sb.question
-      rw [← entryWord_val_ne f g words i j (by rw [hw]; simp), hw, val_pair f g sa sb ha hb]
-    · split
-      · -- one measurement of one player
-        rename_i s hm
-        refine ⟨fun c hc => ?_, hinv⟩
-        simp only [Option.some.injEq] at hc
-        subst hc
-        obtain ⟨hw, hp⟩ := isMeasOne_some _ s hm
-        have hv : detR f g words i j = valSym f g s := by
-          rw [← entryWord_val_ne f g words i j (by rw [hw]; simp), hw, val_single]
-        split
-        · rename_i hpa
-          show detR f g words i j = sumN bo (fun b => detK f g s.answer b s.question 0)
-          rw [hv, sum_detK_bob f g bo _ _ _ hg0]
-          simp [valSym, hpa]
-        · rename_i hpa
-          have hpb : s.player = Player.bob := by
-            rcases hp with h | h
-            · exact absurd h hpa
-            · exact h
-          show detR f g words i j = sumN ao (fun a => detK f g a s.answer 0 s.question)
-          rw [hv, sum_detK_alice f g ao _ _ _ hf0]
-          simp [valSym, hpb]
-      · split
-        · -- same reduced word as an earlier entry
-          rename_i i0 j0 hl
-          refine ⟨fun c hc => ?_, hinv⟩
-          simp only [Option.some.injEq] at hc
-          subst hc
-          obtain ⟨he, hnil⟩ := hinv _ i0 j0 hl
-          show detR f g words i j = detR f g words i0 j0
-          by_cases hw : entryWord words i j = []
-          · obtain ⟨rfl, rfl⟩ := hnil hw
-            have hi0 : i = 0 := by
-              rcases hne_or with h | h
-              · exact h
-              · exact absurd hw h
-            subst hi0
-            have hj0 : j = 0 := by
-              by_contra hjn
-              exact (hok.good j (Nat.pos_of_ne_zero hjn) hj).2 hw
-            subst hj0
-            rfl
-          · rw [← entryWord_val_ne f g words i j hw, ← he,
-              entryWord_val_ne f g words i0 j0 (by rw [he]; exact hw)]
-        · -- new reduced word: remember the entry
-          rename_i hl
-          refine ⟨fun c hc => by simp at hc, ?_⟩
-          intro w i1 j1 h1
-          simp only [lookupSeen] at h1
-          split at h1
-          · rename_i heq
-            simp only [Option.some.injEq, Prod.mk.injEq] at h1
-            obtain ⟨rfl, rfl⟩ := h1
-            refine ⟨heq, fun hw => ?_⟩
-            have hw' : entryWord words i j = [] := by rw [heq]; exact hw
-            have hi0 : i = 0 := by
-              rcases hne_or with h | h
-              · exact h
-              · exact absurd hw' h
-            subst hi0
-            refine ⟨rfl, ?_⟩
-            by_contra hjn
-            exact (hok.good j (Nat.pos_of_ne_zero hjn) hj).2 hw'
-          · exact hinv w i1 j1 h1
-
-theorem loopEntries_sound (psd : Prop) (ao bo : Nat) (hok : WordsOK words) (hf0 : f 0 < ao) (hg0 : g 0 < bo) :
-    ∀ (pairs : List (Nat × Nat)) (seen : Seen), SeenInv words seen →
-      (∀ p ∈ pairs, p.1 < words.length ∧ p.2 < words.length) →
-      ∀ c ∈ loopEntries words pairs seen, Sat psd ao bo (detR f g words) (detK f g) c
-  | [], _, _, _, c, hc => by simp [loopEntries] at hc
-  | (i, j) :: rest, seen, hinv, hp, c, hc => by
-    obtain ⟨hi, hj⟩ := hp (i, j) List.mem_cons_self
-    obtain ⟨hs, hinv'⟩ := entryConstr_sound f g words psd ao bo hok seen hinv i j hi hj hf0 hg0
-    have hrest := loopEntries_sound psd ao bo hok hf0 hg0 rest (entryConstr words seen i j).2 hinv'
-      (fun p hp' => hp p (List.mem_cons_of_mem _ hp'))
-    simp only [loopEntries] at hc
-    split at hc
-    · rename_i c' hc'
-      rcases List.mem_cons.mp hc with rfl | h
-      · exact hs _ hc'
-      · exact hrest c h
-    · exact hrest c hc
-
-theorem pairsUpper_lt (dim : Nat) : ∀ p ∈ pairsUpper dim, p.1 < dim ∧ p.2 < dim := by
-  intro p hp
-  unfold pairsUpper at hp
-  simp only [List.mem_flatMap, List.mem_map, List.mem_range] at hp
-  obtain ⟨i, hi, d, hd, rfl⟩ := hp
-  exact ⟨hi, by simp only; omega⟩
+/-- the values of words under a deterministic strategy are an evaluation in the sense of `EvalOK` -/
+theorem evalOK_det (ao bo : Nat) (hok : WordsOK words) (hf0 : f 0 < ao) (hg0 : g 0 < bo) :
+    EvalOK (val f g) ao bo words (detR f g words) (detK f g) where
+  red_ne := fun w h => (reduceFuel_val f g _ w).1 h
+  red_nil := fun w h hm => (reduceFuel_val f g _ w).2 h hm
+  entry := detR_eq_val f g words
+  norm := by simp [detR, detZ, hok.zero, val, valSym, Sym.ident]
+  pair := val_pair f g
+  oneA := fun s hs => by
+    rw [val_single, sum_detK_bob f g bo _ _ _ hg0]
+    simp [valSym, hs]
+  oneB := fun s hs => by
+    rw [val_single, sum_detK_alice f g ao _ _ _ hf0]
+    simp [valSym, hs]
 
 /-- every constraint on the moment matrix is satisfied by `R = z zᵀ`, `K = [a = f x][b = g y]` -/
 theorem momentConstrs_sound (psd : Prop) (hpsd : psd) (ao bo : Nat) (hok : WordsOK words)
     (hf0 : f 0 < ao) (hg0 : g 0 < bo) :
-    ∀ c ∈ momentConstrs words, Sat psd ao bo (detR f g words) (detK f g) c := by
-  intro c hc
-  unfold momentConstrs at hc
-  rcases List.mem_append.mp hc with h | h
-  · simp only [List.mem_cons, List.not_mem_nil, or_false] at h
-    rcases h with rfl | rfl
-    · show detR f g words 0 0 = 1
-      simp [detR, detZ, hok.zero, val, valSym, Sym.ident]
-    · exact hpsd
-  · exact loopEntries_sound f g words psd ao bo hok hf0 hg0 _ [] (seenInv_nil words) (pairsUpper_lt _) c h
+    ∀ c ∈ momentConstrs words, Sat psd ao bo (detR f g words) (detK f g) c :=
+  momentConstrs_sound_ev psd hpsd (evalOK_det f g words ao bo hok hf0 hg0) hok
 
 /-- the behaviour of a deterministic strategy satisfies the constraints on the assemblage -/
 theorem assemblageConstrs_sound (psd : Prop) (ao bo ai bi : Nat) (R : Nat → Nat → ℚ)
@@ -939,5 +990,728 @@ theorem levelSpec_confOK (k : LevelArg) (hwf : LevelWF k) (base : Nat) (conf : L
           have := countChar_ab v (hwf v (by simpa using hv))
           simp only
           omega
+
+/-! ### the entry constraints, semantically; restriction of a feasible point to a sub-list of the words -/
+
+/-- what the double loop does with an entry, as a function of the entry alone -/
+inductive EClass where
+  | zero
+  | meas (x y a b : Nat)
+  | margA (x a : Nat)
+  | margB (y b : Nat)
+  | other (w : Word)
+
+/-- the branch of the loop body taken for entry `(i, j)` -/
+def entryClass (words : List Word) (i j : Nat) : EClass :=
+  let word := entryWord words i j
+  if i ≠ 0 ∧ word = [] then .zero
+  else
+    match isMeas word with
+    | some (sa, sb) => .meas sa.question sb.question sa.answer sb.answer
+    | none =>
+      match isMeasOne word with
+      | some s => if s.player = .alice then .margA s.question s.answer else .margB s.question s.answer
+      | none => .other word
+
+theorem entryConstr_eq (words : List Word) (seen : Seen) (i j : Nat) :
+    entryConstr words seen i j =
+      match entryClass words i j with
+      | .zero => (some (.zero i j), seen)
+      | .meas x y a b => (some (.meas i j x y a b), seen)
+      | .margA x a => (some (.margA i j x a), seen)
+      | .margB y b => (some (.margB i j y b), seen)
+      | .other w =>
+        match lookupSeen seen w with
+        | some (i0, j0) => (some (.same i j i0 j0), seen)
+        | none => (none, (w, (i, j)) :: seen) := by
+  unfold entryConstr entryClass
+  simp only
+  by_cases hz : i ≠ 0 ∧ entryWord words i j = []
+  · simp only [if_pos hz]
+  · simp only [if_neg hz]
+    cases hm : isMeas (entryWord words i j) with
+    | some p =>
+      obtain ⟨sa, sb⟩ := p
+      simp only
+    | none =>
+      simp only
+      cases ho : isMeasOne (entryWord words i j) with
+      | some s =>
+        simp only
+        split <;> rfl
+      | none =>
+        simp only
+        cases lookupSeen seen (entryWord words i j) with
+        | none => rfl
+        | some v => rfl
+
+section Sem
+variable {α : Type} [Zero α] [One α] [Add α] [LE α]
+variable (psd : Prop) (ao bo : Nat) (words : List Word) (R : Nat → Nat → α) (K : Nat → Nat → Nat → Nat → α)
+
+/-- the condition that the loop imposes on a single entry -/
+def PointOK (i j : Nat) : EClass → Prop
+  | .zero => R i j = 0
+  | .meas x y a b => R i j = K a b x y
+  | .margA x a => R i j = sumN bo (fun b => K a b x 0)
+  | .margB y b => R i j = sumN ao (fun a => K a b 0 y)
+  | .other _ => True
+
+/-- the dictionary `seen` after the loop over `pairs` -/
+def loopSeen : List (Nat × Nat) → Seen → Seen
+  | [], seen => seen
+  | (i, j) :: rest, seen => loopSeen rest (entryConstr words seen i j).2
+
+theorem entryConstr_stable (seen : Seen) (i j : Nat) (w : Word) (v : Nat × Nat)
+    (h : lookupSeen seen w = some v) : lookupSeen (entryConstr words seen i j).2 w = some v := by
+  rw [entryConstr_eq]
+  split <;> try exact h
+  rename_i w' _
+  split
+  · exact h
+  · rename_i hn
+    simp only [lookupSeen]
+    split
+    · rename_i heq
+      rw [heq, h] at hn
+      simp at hn
+    · exact h
+
+theorem loopSeen_stable : ∀ (pairs : List (Nat × Nat)) (seen : Seen) (w : Word) (v : Nat × Nat),
+    lookupSeen seen w = some v → lookupSeen (loopSeen words pairs seen) w = some v
+  | [], _, _, _, h => h
+  | (i, j) :: rest, seen, w, v, h =>
+    loopSeen_stable rest _ w v (entryConstr_stable words seen i j w v h)
+
+/-- what one step of the loop guarantees for its own entry, given that the emitted constraint holds -/
+theorem entry_sem (seen : Seen) (i j : Nat)
+    (hs : ∀ c, (entryConstr words seen i j).1 = some c → Sat psd ao bo R K c) :
+    PointOK ao bo R K i j (entryClass words i j) ∧
+      ∀ w, entryClass words i j = .other w →
+        ∃ i0 j0, lookupSeen (entryConstr words seen i j).2 w = some (i0, j0) ∧ R i j = R i0 j0 := by
+  rw [entryConstr_eq] at hs ⊢
+  cases hc : entryClass words i j with
+  | zero => rw [hc] at hs; exact ⟨hs _ rfl, fun w h => by cases h⟩
+  | meas x y a b => rw [hc] at hs; exact ⟨hs _ rfl, fun w h => by cases h⟩
+  | margA x a => rw [hc] at hs; exact ⟨hs _ rfl, fun w h => by cases h⟩
+  | margB y b => rw [hc] at hs; exact ⟨hs _ rfl, fun w h => by cases h⟩
+  | other w' =>
+    rw [hc] at hs
+    refine ⟨trivial, fun w h => ?_⟩
+    injection h with h
+    subst h
+    simp only at hs ⊢
+    cases hl : lookupSeen seen w' with
+    | some v =>
+      obtain ⟨i0, j0⟩ := v
+      rw [hl] at hs
+      exact ⟨i0, j0, hl, hs _ rfl⟩
+    | none =>
+      exact ⟨i, j, by simp [lookupSeen], rfl⟩
+
+/-- **loop ⇒ semantics**: if every emitted constraint holds, every entry of `pairs` satisfies its own condition
+    and equals the entry that represents its reduced word in the final dictionary -/
+theorem loop_sem : ∀ (pairs : List (Nat × Nat)) (seen : Seen),
+    (∀ c ∈ loopEntries words pairs seen, Sat psd ao bo R K c) →
+    ∀ p ∈ pairs, PointOK ao bo R K p.1 p.2 (entryClass words p.1 p.2) ∧
+      ∀ w, entryClass words p.1 p.2 = .other w →
+        ∃ i0 j0, lookupSeen (loopSeen words pairs seen) w = some (i0, j0) ∧ R p.1 p.2 = R i0 j0
+  | [], _, _, p, hp => by simp at hp
+  | (i, j) :: rest, seen, hs, p, hp => by
+    have hhead : ∀ c, (entryConstr words seen i j).1 = some c → Sat psd ao bo R K c := by
+      intro c hc
+      apply hs
+      simp only [loopEntries, hc]
+      exact List.mem_cons_self
+    have hrest : ∀ c ∈ loopEntries words rest (entryConstr words seen i j).2, Sat psd ao bo R K c := by
+      intro c hc
+      apply hs
+      simp only [loopEntries]
+      split
+      · exact List.mem_cons_of_mem _ hc
+      · exact hc
+    rcases List.mem_cons.mp hp with rfl | hp'
+    · obtain ⟨h1, h2⟩ := entry_sem psd ao bo words R K seen i j hhead
+      refine ⟨h1, fun w hw => ?_⟩
+      obtain ⟨i0, j0, hl, he⟩ := h2 w hw
+      exact ⟨i0, j0, loopSeen_stable words rest _ w _ hl, he⟩
+    · exact loop_sem rest _ hrest p hp'
+
+/-- **semantics ⇒ loop**: if on a set `S` of entries every entry satisfies its own condition and entries with
+    the same reduced word (in the last branch) are equal, then every constraint that the loop over entries of
+    `S` emits holds -/
+theorem sem_loop (S : Nat → Nat → Prop)
+    (hpt : ∀ i j, S i j → PointOK ao bo R K i j (entryClass words i j))
+    (hpair : ∀ i j i' j' w, S i j → S i' j' → entryClass words i j = .other w →
+      entryClass words i' j' = .other w → R i j = R i' j') :
+    ∀ (pairs : List (Nat × Nat)) (seen : Seen), (∀ p ∈ pairs, S p.1 p.2) →
+      (∀ w i0 j0, lookupSeen seen w = some (i0, j0) → S i0 j0 ∧ entryClass words i0 j0 = .other w) →
+      ∀ c ∈ loopEntries words pairs seen, Sat psd ao bo R K c
+  | [], _, _, _, c, hc => by simp [loopEntries] at hc
+  | (i, j) :: rest, seen, hS, hinv, c, hc => by
+    have hij : S i j := hS (i, j) List.mem_cons_self
+    have hSr : ∀ p ∈ rest, S p.1 p.2 := fun p hp => hS p (List.mem_cons_of_mem _ hp)
+    have hp := hpt i j hij
+    simp only [loopEntries] at hc
+    rw [entryConstr_eq] at hc
+    cases hcl : entryClass words i j with
+    | zero =>
+      rw [hcl] at hc hp
+      rcases List.mem_cons.mp hc with rfl | h
+      · exact hp
+      · exact sem_loop S hpt hpair rest seen hSr hinv c h
+    | meas x y a b =>
+      rw [hcl] at hc hp
+      rcases List.mem_cons.mp hc with rfl | h
+      · exact hp
+      · exact sem_loop S hpt hpair rest seen hSr hinv c h
+    | margA x a =>
+      rw [hcl] at hc hp
+      rcases List.mem_cons.mp hc with rfl | h
+      · exact hp
+      · exact sem_loop S hpt hpair rest seen hSr hinv c h
+    | margB y b =>
+      rw [hcl] at hc hp
+      rcases List.mem_cons.mp hc with rfl | h
+      · exact hp
+      · exact sem_loop S hpt hpair rest seen hSr hinv c h
+    | other w =>
+      rw [hcl] at hc
+      simp only at hc
+      cases hl : lookupSeen seen w with
+      | some v =>
+        obtain ⟨i0, j0⟩ := v
+        rw [hl] at hc
+        rcases List.mem_cons.mp hc with rfl | h
+        · obtain ⟨hS0, hc0⟩ := hinv w i0 j0 hl
+          exact hpair i j i0 j0 w hij hS0 hcl hc0
+        · exact sem_loop S hpt hpair rest seen hSr hinv c h
+      | none =>
+        rw [hl] at hc
+        refine sem_loop S hpt hpair rest ((w, (i, j)) :: seen) hSr ?_ c hc
+        intro w' i1 j1 h1
+        simp only [lookupSeen] at h1
+        split at h1
+        · rename_i heq
+          simp only [Option.some.injEq, Prod.mk.injEq] at h1
+          obtain ⟨rfl, rfl⟩ := h1
+          subst heq
+          exact ⟨hij, hcl⟩
+        · exact hinv w' i1 j1 h1
+
+end Sem
+
+theorem mem_pairsUpper (dim i j : Nat) : (i, j) ∈ pairsUpper dim ↔ i ≤ j ∧ j < dim := by
+  unfold pairsUpper
+  simp only [List.mem_flatMap, List.mem_map, List.mem_range, Prod.mk.injEq]
+  constructor
+  · rintro ⟨i', hi', d, hd, rfl, rfl⟩
+    omega
+  · rintro ⟨h1, h2⟩
+    exact ⟨i, by omega, j - i, by omega, rfl, by omega⟩
+
+/-- **Restriction to a sub-list of the words.**  Let the words `lo` be the words `hi` at the positions
+    `φ 0 = 0 < φ 1 < …`.  If `(R, K)` satisfies every constraint on the moment matrix generated for `hi`, then
+    the principal submatrix `R[φ i, φ j]` with the same `K` satisfies every constraint generated for `lo`
+    (`R ⪰ 0` is inherited through the hypothesis `hpsd`). -/
+theorem momentConstrs_restrict {α : Type} [Zero α] [One α] [Add α] [LE α]
+    (psdHi psdLo : Prop) (hpsd : psdHi → psdLo) (ao bo : Nat) (hi lo : List Word) (φ : Nat → Nat)
+    (hφ0 : φ 0 = 0) (hφmono : ∀ i j, i < j → j < lo.length → φ i < φ j)
+    (hφlt : ∀ i, i < lo.length → φ i < hi.length)
+    (hφw : ∀ i, i < lo.length → wordAt lo i = wordAt hi (φ i))
+    (R : Nat → Nat → α) (K : Nat → Nat → Nat → Nat → α)
+    (h : ∀ c ∈ momentConstrs hi, Sat psdHi ao bo R K c) :
+    ∀ c ∈ momentConstrs lo, Sat psdLo ao bo (fun i j => R (φ i) (φ j)) K c := by
+  have hloop : ∀ c ∈ loopEntries hi (pairsUpper hi.length) [], Sat psdHi ao bo R K c := by
+    intro c hc
+    exact h c (by unfold momentConstrs; exact List.mem_append_right _ hc)
+  have hsem := loop_sem psdHi ao bo hi R K (pairsUpper hi.length) [] hloop
+  -- classes agree along φ
+  have hclass : ∀ i j, i ≤ j → j < lo.length → entryClass lo i j = entryClass hi (φ i) (φ j) := by
+    intro i j hij hj
+    have hw : entryWord lo i j = entryWord hi (φ i) (φ j) := by
+      unfold entryWord
+      rw [hφw i (by omega), hφw j hj]
+    have h0 : i ≠ 0 ↔ φ i ≠ 0 := by
+      constructor
+      · intro hi0 hφi
+        have := hφmono 0 i (Nat.pos_of_ne_zero hi0) (by omega)
+        omega
+      · intro hφi hi0
+        exact hφi (by rw [hi0, hφ0])
+    unfold entryClass
+    simp only [hw, h0]
+  have hmem : ∀ i j, i ≤ j → j < lo.length → (φ i, φ j) ∈ pairsUpper hi.length := by
+    intro i j hij hj
+    rw [mem_pairsUpper]
+    refine ⟨?_, hφlt j hj⟩
+    rcases Nat.lt_or_ge i j with h1 | h1
+    · exact Nat.le_of_lt (hφmono i j h1 hj)
+    · have : i = j := by omega
+      rw [this]
+  intro c hc
+  unfold momentConstrs at hc
+  rcases List.mem_append.mp hc with h1 | h1
+  · simp only [List.mem_cons, List.not_mem_nil, or_false] at h1
+    rcases h1 with rfl | rfl
+    · show R (φ 0) (φ 0) = 1
+      rw [hφ0]
+      exact h Constr.norm (by unfold momentConstrs; simp)
+    · exact hpsd (h Constr.psd (by unfold momentConstrs; simp))
+  · refine sem_loop psdLo ao bo lo (fun i j => R (φ i) (φ j)) K (fun i j => i ≤ j ∧ j < lo.length) ?_ ?_
+      (pairsUpper lo.length) [] ?_ ?_ c h1
+    · intro i j ⟨hij, hj⟩
+      have := (hsem (φ i, φ j) (hmem i j hij hj)).1
+      rw [hclass i j hij hj]
+      cases hcl : entryClass hi (φ i) (φ j) <;> rw [hcl] at this <;> exact this
+    · intro i j i' j' w ⟨hij, hj⟩ ⟨hij', hj'⟩ hc1 hc2
+      rw [hclass i j hij hj] at hc1
+      rw [hclass i' j' hij' hj'] at hc2
+      obtain ⟨a0, b0, hl1, he1⟩ := (hsem (φ i, φ j) (hmem i j hij hj)).2 w hc1
+      obtain ⟨a1, b1, hl2, he2⟩ := (hsem (φ i', φ j') (hmem i' j' hij' hj')).2 w hc2
+      rw [hl1] at hl2
+      simp only [Option.some.injEq, Prod.mk.injEq] at hl2
+      obtain ⟨rfl, rfl⟩ := hl2
+      show R (φ i) (φ j) = R (φ i') (φ j')
+      rw [he1, he2]
+    · intro p hp
+      exact (mem_pairsUpper lo.length p.1 p.2).mp hp
+    · intro w i0 j0 hl
+      simp [lookupSeen] at hl
+
+/-! ### `_reduce` preserves the operator of a word (projectors that commute between the players) -/
+
+section Op
+variable {M : Type} [MonoidWithZero M]
+
+/-- an assignment of elements of a monoid with zero to the symbols that obeys the rules `_reduce` uses: the symbol of
+    no player is the unit, every symbol is idempotent, two symbols of the same player and question with different
+    answers multiply to zero, Alice's symbols commute with Bob's -/
+structure SymRep (o : Sym → M) : Prop where
+  ident : ∀ s : Sym, s.player = Player.none → o s = 1
+  idem : ∀ s : Sym, o s * o s = o s
+  orth : ∀ x y : Sym, orth x y = true → x.player ≠ Player.none → o x * o y = 0
+  comm : ∀ x y : Sym, x.player = Player.alice → y.player = Player.bob → o x * o y = o y * o x
+
+/-- the product of the elements of a word, in order -/
+def opW (o : Sym → M) (w : Word) : M := (w.map o).prod
+
+variable {o : Sym → M}
+
+theorem opW_nil : opW o [] = 1 := rfl
+
+theorem opW_cons (s : Sym) (w : Word) : opW o (s :: w) = o s * opW o w := by
+  simp [opW]
+
+theorem opW_append (u v : Word) : opW o (u ++ v) = opW o u * opW o v := by
+  simp [opW]
+
+/-- a symbol of Bob commutes with a product of symbols of Alice -/
+theorem SymRep.comm_list (h : SymRep o) (s : Sym) (hs : s.player = Player.bob) :
+    ∀ (l : Word), (∀ t ∈ l, t.player = Player.alice) → opW o l * o s = o s * opW o l
+  | [], _ => by simp [opW]
+  | t :: l, hl => by
+    rw [opW_cons, mul_assoc, h.comm_list s hs l (fun u hu => hl u (List.mem_cons_of_mem _ hu)), ← mul_assoc,
+      h.comm t s (hl t List.mem_cons_self) hs, mul_assoc]
+
+theorem SymRep.opW_sep (h : SymRep o) (w : Word) : opW o (sep w) = opW o w := by
+  unfold sep
+  rw [opW_append]
+  induction w with
+  | nil => simp [opW]
+  | cons s w ih =>
+    rw [opW_cons, ← ih]
+    rcases hp : s.player with _ | _ | _
+    · rw [List.filter_cons_of_neg (by simp [hp]), List.filter_cons_of_neg (by simp [hp]), h.ident s hp, one_mul]
+    · rw [List.filter_cons_of_pos (by simp [hp]), List.filter_cons_of_neg (by simp [hp]), opW_cons, mul_assoc]
+    · rw [List.filter_cons_of_neg (by simp [hp]), List.filter_cons_of_pos (by simp [hp]), opW_cons, ← mul_assoc,
+        h.comm_list s hp _ (fun t ht => by simpa using (List.mem_filter.mp ht).2), mul_assoc]
+
+theorem SymRep.scan_merged (h : SymRep o) : ∀ (w w' : Word), scan w = Scan.merged w' → opW o w' = opW o w
+  | [], w', hs => by simp [scan] at hs
+  | [_], w', hs => by simp [scan] at hs
+  | x :: y :: rest, w', hs => by
+    unfold scan at hs
+    split at hs
+    · rename_i hxy
+      injection hs with hs
+      subst hs; subst hxy
+      simp only [opW_cons]
+      rw [← mul_assoc, h.idem]
+    · split at hs
+      · simp at hs
+      · cases hsc : scan (y :: rest) with
+        | merged w'' =>
+          rw [hsc] at hs
+          injection hs with hs
+          subst hs
+          rw [opW_cons, h.scan_merged (y :: rest) w'' hsc, ← opW_cons]
+        | zero => rw [hsc] at hs; simp at hs
+        | done => rw [hsc] at hs; simp at hs
+
+theorem SymRep.scan_zero (h : SymRep o) : ∀ (w : Word), scan w = Scan.zero →
+    (∀ s ∈ w, s.player ≠ Player.none) → opW o w = 0
+  | [], hs, _ => by simp [scan] at hs
+  | [_], hs, _ => by simp [scan] at hs
+  | x :: y :: rest, hs, hp => by
+    unfold scan at hs
+    split at hs
+    · simp at hs
+    · split at hs
+      · rename_i ho
+        simp only [opW_cons]
+        rw [← mul_assoc, h.orth x y ho (hp x List.mem_cons_self), zero_mul]
+      · cases hsc : scan (y :: rest) with
+        | merged w'' => rw [hsc] at hs; simp at hs
+        | zero =>
+          rw [opW_cons, h.scan_zero (y :: rest) hsc (fun s h' => hp s (List.mem_cons_of_mem _ h')), mul_zero]
+        | done => rw [hsc] at hs; simp at hs
+
+/-- `_reduce` preserves the product: a non-empty result has the same product as the word; if the result is the
+    empty tuple and the word contains a measurement, the product is zero -/
+theorem SymRep.reduceFuel_op (h : SymRep o) : ∀ (n : Nat) (w : Word),
+    (reduceFuel n w ≠ [] → opW o (reduceFuel n w) = opW o w) ∧
+    (reduceFuel n w = [] → hasMeas w → opW o w = 0)
+  | 0, w => by
+    simp only [reduceFuel]
+    exact ⟨fun _ => h.opW_sep w, fun hn hm => absurd hn ((sep_ne_nil_iff w).mpr hm)⟩
+  | n + 1, w => by
+    simp only [reduceFuel]
+    cases hs : scan (sep w) with
+    | merged w' =>
+      simp only
+      have hv := h.scan_merged (sep w) w' hs
+      obtain ⟨_, _, hne, hm⟩ := Toq.Npa.scan_merged (fun _ => 0) (fun _ => 0) (sep w) w' hs
+      obtain ⟨ihA, ihB⟩ := h.reduceFuel_op n w'
+      refine ⟨fun hn => by rw [ihA hn, hv, h.opW_sep], fun hn _ => ?_⟩
+      have hm' : hasMeas w' := by
+        obtain ⟨s, hs'⟩ := List.exists_mem_of_ne_nil _ hne
+        exact ⟨s, hs', sep_players w s (hm s hs')⟩
+      rw [← h.opW_sep, ← hv]
+      exact ihB hn hm'
+    | zero =>
+      simp only
+      exact ⟨fun hn => absurd rfl hn, fun _ _ => by
+        rw [← h.opW_sep]; exact h.scan_zero (sep w) hs (sep_players w)⟩
+    | done =>
+      simp only
+      exact ⟨fun _ => h.opW_sep w, fun hn hm => absurd hn ((sep_ne_nil_iff w).mpr hm)⟩
+
+end Op
+
+/-! ### commuting projective measurements on a finite-dimensional space -/
+
+section Quantum
+open Matrix
+open scoped ComplexOrder
+
+/-- A quantum strategy in the commuting-operator picture, dimension `d`: projective measurements `A x a`
+    (Alice, question `x`, answer `a`) and `B y b` (Bob) on one space `ℂ^d`, every operator of Alice commuting with
+    every operator of Bob (tensor-product strategies `A ⊗ 1`, `1 ⊗ B` are the special case), and a unit vector
+    `psi`.  Operators with indices outside the alphabets are irrelevant; the algebraic rules are required for all
+    indices (extend a strategy by zero operators). -/
+structure QStrategy (d ao bo ai bi : Nat) where
+  A : Nat → Nat → Matrix (Fin d) (Fin d) ℂ
+  B : Nat → Nat → Matrix (Fin d) (Fin d) ℂ
+  psi : Fin d → ℂ
+  A_herm : ∀ x a, (A x a)ᴴ = A x a
+  A_idem : ∀ x a, A x a * A x a = A x a
+  A_orth : ∀ x a a', a ≠ a' → A x a * A x a' = 0
+  A_sum : ∀ x, x < ai → sumN ao (fun a => A x a) = 1
+  B_herm : ∀ y b, (B y b)ᴴ = B y b
+  B_idem : ∀ y b, B y b * B y b = B y b
+  B_orth : ∀ y b b', b ≠ b' → B y b * B y b' = 0
+  B_sum : ∀ y, y < bi → sumN bo (fun b => B y b) = 1
+  comm : ∀ x a y b, A x a * B y b = B y b * A x a
+  psi_norm : star psi ⬝ᵥ psi = 1
+
+variable {d ao bo ai bi : Nat} (S : QStrategy d ao bo ai bi)
+
+/-- the operator of a symbol -/
+def QStrategy.o (s : Sym) : Matrix (Fin d) (Fin d) ℂ :=
+  match s.player with
+  | .none => 1
+  | .alice => S.A s.question s.answer
+  | .bob => S.B s.question s.answer
+
+theorem QStrategy.symRep : SymRep S.o where
+  ident := fun s hs => by simp [QStrategy.o, hs]
+  idem := fun s => by
+    unfold QStrategy.o
+    rcases s.player with _ | _ | _
+    · simp
+    · exact S.A_idem _ _
+    · exact S.B_idem _ _
+  orth := fun x y h hx => by
+    unfold orth at h
+    simp only [decide_eq_true_eq] at h
+    obtain ⟨hp, hq, ha⟩ := h
+    unfold QStrategy.o
+    rw [← hp, ← hq]
+    rcases hxp : x.player with _ | _ | _
+    · exact absurd hxp hx
+    · exact S.A_orth _ _ _ ha
+    · exact S.B_orth _ _ _ ha
+  comm := fun x y hx hy => by
+    simp only [QStrategy.o, hx, hy]
+    exact S.comm _ _ _ _
+
+theorem QStrategy.o_herm (s : Sym) : (S.o s)ᴴ = S.o s := by
+  unfold QStrategy.o
+  rcases s.player with _ | _ | _
+  · simp
+  · exact S.A_herm _ _
+  · exact S.B_herm _ _
+
+theorem QStrategy.opW_reverse (w : Word) : opW S.o w.reverse = (opW S.o w)ᴴ := by
+  induction w with
+  | nil => simp [opW]
+  | cons s w ih =>
+    rw [List.reverse_cons, opW_append, ih, opW_cons, opW_cons, opW_nil, mul_one, conjTranspose_mul, S.o_herm]
+
+/-- expectation value `⟨psi| m |psi⟩` -/
+def QStrategy.expect (m : Matrix (Fin d) (Fin d) ℂ) : ℂ := star S.psi ⬝ᵥ (m *ᵥ S.psi)
+
+/-- value of a word: expectation of its operator -/
+def QStrategy.ev (w : Word) : ℂ := S.expect (opW S.o w)
+
+/-- the behaviour `K(a, b | x, y) = ⟨psi| A x a · B y b |psi⟩` -/
+def QStrategy.K : Nat → Nat → Nat → Nat → ℂ := fun a b x y => S.expect (S.A x a * S.B y b)
+
+/-- the moment matrix `R[i, j] = ⟨psi| words[i]† · words[j] |psi⟩` -/
+def QStrategy.R (words : List Word) : Nat → Nat → ℂ :=
+  fun i j => S.ev ((wordAt words i).reverse ++ wordAt words j)
+
+theorem QStrategy.expect_zero : S.expect 0 = 0 := by simp [QStrategy.expect]
+
+theorem QStrategy.expect_one : S.expect 1 = 1 := by simp [QStrategy.expect, S.psi_norm]
+
+theorem QStrategy.expect_add (m n : Matrix (Fin d) (Fin d) ℂ) : S.expect (m + n) = S.expect m + S.expect n := by
+  simp [QStrategy.expect, add_mulVec, dotProduct_add]
+
+theorem QStrategy.expect_sumN (F : Nat → Matrix (Fin d) (Fin d) ℂ) (n : Nat) :
+    S.expect (sumN n F) = sumN n (fun k => S.expect (F k)) := by
+  induction n with
+  | zero => exact S.expect_zero
+  | succ n ih =>
+    show S.expect (sumN n F + F n) = sumN n (fun k => S.expect (F k)) + S.expect (F n)
+    rw [S.expect_add, ih]
+
+theorem sumN_mul_left {Rg : Type} [NonUnitalNonAssocSemiring Rg] (m : Rg) (F : Nat → Rg) :
+    ∀ n, sumN n (fun k => m * F k) = m * sumN n F
+  | 0 => by simp [sumN]
+  | n + 1 => by
+    show sumN n (fun k => m * F k) + m * F n = m * (sumN n F + F n)
+    rw [sumN_mul_left m F n, mul_add]
+
+theorem sumN_mul_right {Rg : Type} [NonUnitalNonAssocSemiring Rg] (m : Rg) (F : Nat → Rg) :
+    ∀ n, sumN n (fun k => F k * m) = sumN n F * m
+  | 0 => by simp [sumN]
+  | n + 1 => by
+    show sumN n (fun k => F k * m) + F n * m = (sumN n F + F n) * m
+    rw [sumN_mul_right m F n, add_mul]
+
+/-- the product of a projector of Alice and a projector of Bob is a positive operator: `P = Pᴴ P` -/
+theorem QStrategy.AB_pos (x a y b : Nat) :
+    S.A x a * S.B y b = (S.A x a * S.B y b)ᴴ * (S.A x a * S.B y b) := by
+  rw [conjTranspose_mul, S.A_herm, S.B_herm]
+  calc S.A x a * S.B y b = S.A x a * (S.B y b * S.B y b) := by rw [S.B_idem]
+    _ = (S.A x a * S.B y b) * S.B y b := by rw [mul_assoc]
+    _ = (S.B y b * S.A x a) * S.B y b := by rw [S.comm]
+    _ = (S.B y b * (S.A x a * S.A x a)) * S.B y b := by rw [S.A_idem]
+    _ = S.B y b * S.A x a * (S.A x a * S.B y b) := by simp only [mul_assoc]
+
+theorem QStrategy.K_nonneg (a b x y : Nat) : 0 ≤ S.K a b x y := by
+  unfold QStrategy.K QStrategy.expect
+  rw [S.AB_pos x a y b, ← mulVec_mulVec, dotProduct_mulVec, ← star_mulVec]
+  exact dotProduct_star_self_nonneg _
+
+theorem QStrategy.sum_K_bob (a x y : Nat) (hy : y < bi) :
+    sumN bo (fun b => S.K a b x y) = S.expect (S.A x a) := by
+  unfold QStrategy.K
+  rw [← S.expect_sumN, sumN_mul_left, S.B_sum y hy, mul_one]
+
+theorem QStrategy.sum_K_alice (b x y : Nat) (hx : x < ai) :
+    sumN ao (fun a => S.K a b x y) = S.expect (S.B y b) := by
+  unfold QStrategy.K
+  rw [← S.expect_sumN, sumN_mul_right, S.A_sum x hx, one_mul]
+
+theorem QStrategy.evalOK (words : List Word) (hok : WordsOK words) (hai : 0 < ai) (hbi : 0 < bi) :
+    EvalOK S.ev ao bo words (S.R words) S.K where
+  red_ne := fun w h => by
+    have := (S.symRep.reduceFuel_op w.length w).1 h
+    unfold QStrategy.ev reduceWord
+    rw [this]
+  red_nil := fun w h hm => by
+    have := (S.symRep.reduceFuel_op w.length w).2 h hm
+    unfold QStrategy.ev
+    rw [this, S.expect_zero]
+  entry := fun _ _ => rfl
+  norm := by
+    unfold QStrategy.R QStrategy.ev
+    rw [hok.zero]
+    simp [opW, QStrategy.o, Sym.ident, S.expect_one]
+  pair := fun sa sb ha hb => by
+    simp [QStrategy.ev, QStrategy.K, opW, QStrategy.o, ha, hb]
+  oneA := fun s hs => by
+    rw [S.sum_K_bob _ _ 0 hbi]
+    simp [QStrategy.ev, opW, QStrategy.o, hs]
+  oneB := fun s hs => by
+    rw [S.sum_K_alice _ 0 _ hai]
+    simp [QStrategy.ev, opW, QStrategy.o, hs]
+
+/-- the moment matrix of a quantum strategy is a Gram matrix, hence positive semidefinite -/
+theorem QStrategy.R_psd (words : List Word) (n : Nat) :
+    (Matrix.of fun i j : Fin n => S.R words i j).PosSemidef := by
+  have h : (Matrix.of fun i j : Fin n => S.R words i j)
+      = (Matrix.of fun (k : Fin d) (i : Fin n) => (opW S.o (wordAt words i) *ᵥ S.psi) k)ᴴ
+        * (Matrix.of fun (k : Fin d) (i : Fin n) => (opW S.o (wordAt words i) *ᵥ S.psi) k) := by
+    ext i j
+    simp only [Matrix.of_apply, QStrategy.R, QStrategy.ev, QStrategy.expect, opW_append, S.opW_reverse,
+      Matrix.mul_apply, Matrix.conjTranspose_apply]
+    rw [← mulVec_mulVec, dotProduct_mulVec, ← star_mulVec]
+    rfl
+  rw [h]
+  exact posSemidef_conjTranspose_mul_self _
+
+/-- the behaviour of a quantum strategy satisfies the constraints on the assemblage -/
+theorem QStrategy.assemblage_sound (psd : Prop) (R : Nat → Nat → ℂ) :
+    ∀ c ∈ assemblageConstrs ao bo ai bi, Sat psd ao bo R S.K c := by
+  intro c hc
+  unfold assemblageConstrs at hc
+  simp only [List.mem_append, List.mem_flatMap, List.mem_map, List.mem_range, List.mem_singleton] at hc
+  rcases hc with (⟨x, hx, y, hy, h⟩ | ⟨y, hy, b, hb, x', hx', rfl⟩) | ⟨x, hx, a, ha, y', hy', rfl⟩
+  · rcases h with ⟨a, ha, b, hb, rfl⟩ | rfl
+    · exact S.K_nonneg a b x y
+    · show sumN ao (fun a => sumN bo (fun b => S.K a b x y)) = 1
+      have : sumN ao (fun a => sumN bo (fun b => S.K a b x y)) = sumN ao (fun a => S.expect (S.A x a)) := by
+        congr 1; funext a; exact S.sum_K_bob a x y hy
+      rw [this, ← S.expect_sumN, S.A_sum x hx, S.expect_one]
+  · show sumN ao (fun a => S.K a b 0 y) = sumN ao (fun a => S.K a b (x' + 1) y)
+    rw [S.sum_K_alice b 0 y (by omega), S.sum_K_alice b (x' + 1) y (by omega)]
+  · show sumN bo (fun b => S.K a b x 0) = sumN bo (fun b => S.K a b x (y' + 1))
+    rw [S.sum_K_bob a x 0 (by omega), S.sum_K_bob a x (y' + 1) (by omega)]
+
+end Quantum
+
+/-! ### the matrix-block form of the non-signalling program -/
+
+section NsBlocks
+open Matrix
+open scoped ComplexOrder
+
+theorem re_trace_sumN {d : Nat} (F : Nat → Matrix (Fin d) (Fin d) ℂ) (n : Nat) :
+    (sumN n F).trace.re = sumN n (fun k => (F k).trace.re) := by
+  induction n with
+  | zero => simp [sumN]
+  | succ n ih =>
+    show (sumN n F + F n).trace.re = sumN n (fun k => (F k).trace.re) + (F n).trace.re
+    rw [trace_add, Complex.add_re, ih]
+
+/-- the constraint system of `nonsignaling_value` as the code writes it, with `d × d` blocks (`d = 2` in the code):
+    `K(a,b|x,y) ⪰ 0`, `Σ_b K = σ(a|x)`, `Σ_a K = ρ(b|y)`, `Σ_a σ = τ`, `Σ_b ρ = τ`, `tr τ = 1` (and `τ ⪰ 0`, not needed
+    here) -/
+structure NsBlocksFeasible (d ao bo ai bi : Nat) (Kb : Nat → Nat → Nat → Nat → Matrix (Fin d) (Fin d) ℂ) : Prop where
+  psd : ∀ x y a b, x < ai → y < bi → a < ao → b < bo → (Kb a b x y).PosSemidef
+  marg : ∃ (sg rh : Nat → Nat → Matrix (Fin d) (Fin d) ℂ) (tau : Matrix (Fin d) (Fin d) ℂ),
+    (∀ x y a, x < ai → y < bi → a < ao → sumN bo (fun b => Kb a b x y) = sg a x) ∧
+    (∀ x y b, x < ai → y < bi → b < bo → sumN ao (fun a => Kb a b x y) = rh b y) ∧
+    (∀ x, x < ai → sumN ao (fun a => sg a x) = tau) ∧
+    (∀ y, y < bi → sumN bo (fun b => rh b y) = tau) ∧
+    tau.trace = 1
+
+theorem nsFeasible_of_blocks (d ao bo ai bi : Nat) (Kb : Nat → Nat → Nat → Nat → Matrix (Fin d) (Fin d) ℂ)
+    (h : NsBlocksFeasible d ao bo ai bi Kb) :
+    NsFeasible ao bo ai bi (fun a b x y => (Kb a b x y).trace.re) := by
+  obtain ⟨sg, rh, tau, h1, h2, h3, h4, ht⟩ := h.marg
+  refine ⟨fun x y a b hx hy ha hb => ?_, fun a x => (sg a x).trace.re, fun b y => (rh b y).trace.re, ?_, ?_, ?_, ?_⟩
+  · exact (Complex.le_def.mp (h.psd x y a b hx hy ha hb).trace_nonneg).1
+  · intro x y a hx hy ha
+    show sumN bo (fun b => (Kb a b x y).trace.re) = (sg a x).trace.re
+    rw [← re_trace_sumN, h1 x y a hx hy ha]
+  · intro x y b hx hy hb
+    show sumN ao (fun a => (Kb a b x y).trace.re) = (rh b y).trace.re
+    rw [← re_trace_sumN, h2 x y b hx hy hb]
+  · intro x hx
+    show sumN ao (fun a => (sg a x).trace.re) = 1
+    rw [← re_trace_sumN, h3 x hx, ht]; rfl
+  · intro y hy
+    show sumN bo (fun b => (rh b y).trace.re) = 1
+    rw [← re_trace_sumN, h4 y hy, ht]; rfl
+
+end NsBlocks
+
+/-! ### levels are nested -/
+
+theorem GoodWord.ne_ident {w : Word} (h : GoodWord w) : w ≠ [Sym.ident] := by
+  intro he
+  obtain ⟨s, hs, hp⟩ := h.hasMeas
+  rw [he] at hs
+  simp only [List.mem_singleton] at hs
+  subst hs
+  exact hp rfl
+
+/-- if the word list of the lower level is a sub-list of the word list of the higher level, there is a strictly
+    increasing position map `φ` with `φ 0 = 0` that carries the words of the lower level to the same words of the
+    higher level -/
+theorem exists_embedding_of_sublist (baseLo baseHi : Nat) (confLo confHi : List (Nat × Nat)) (ao ai bo bi : Nat)
+    (hHi : ConfOK confHi)
+    (hsub : List.Sublist (genWords baseLo confLo ao ai bo bi) (genWords baseHi confHi ao ai bo bi)) :
+    ∃ φ : Nat → Nat, φ 0 = 0 ∧ (∀ i j, i < j → φ i < φ j) ∧
+      (∀ i, i < (genWords baseLo confLo ao ai bo bi).length → φ i < (genWords baseHi confHi ao ai bo bi).length) ∧
+      (∀ i, wordAt (genWords baseLo confLo ao ai bo bi) i = wordAt (genWords baseHi confHi ao ai bo bi) (φ i)) := by
+  obtain ⟨f, hf⟩ := List.sublist_iff_exists_orderEmbedding_getElem?_eq.mp hsub
+  have hw : ∀ i, wordAt (genWords baseLo confLo ao ai bo bi) i = wordAt (genWords baseHi confHi ao ai bo bi) (f i) := by
+    intro i
+    simp only [wordAt, List.getD_eq_getElem?_getD, hf i]
+  refine ⟨f, ?_, fun i j hij => f.strictMono hij, ?_, hw⟩
+  · -- the identity word occurs at position 0 only
+    obtain ⟨rest, he, hg⟩ := genWords_structure baseHi confHi ao ai bo bi hHi
+    have h0 := hf 0
+    have hlo0 : (genWords baseLo confLo ao ai bo bi)[0]? = some [Sym.ident] := by
+      unfold genWords; rfl
+    rw [hlo0, he] at h0
+    by_contra hne
+    obtain ⟨k, hk⟩ : ∃ k, f 0 = k + 1 := ⟨f 0 - 1, by omega⟩
+    rw [hk, List.getElem?_cons_succ] at h0
+    have hmem : [Sym.ident] ∈ rest := List.mem_of_getElem? h0.symm
+    exact (hg _ hmem).ne_ident rfl
+  · intro i hi
+    have h1 := hf i
+    rw [List.getElem?_eq_getElem hi] at h1
+    by_contra hge
+    rw [List.getElem?_eq_none (by omega)] at h1
+    simp at h1
+
+open scoped ComplexOrder in
+theorem psdQ_restrict (n m : Nat) (φ : Nat → Nat) (R : Nat → Nat → ℚ) (hφ : ∀ i, i < m → φ i < n)
+    (h : PsdQ n R) : PsdQ m (fun i j => R (φ i) (φ j)) := by
+  unfold PsdQ at h ⊢
+  have := h.submatrix (fun i : Fin m => (⟨φ i, hφ i i.2⟩ : Fin n))
+  exact this
+
+
+/-- the word lists of the levels `1`, `'1+ab'`, `2` are nested, and those of integer levels are prefixes of one
+    another — for all alphabet sizes -/
+theorem genWords_nested (ao ai bo bi : Nat) :
+    List.Sublist (genWords 1 [] ao ai bo bi) (genWords 1 [(1, 1)] ao ai bo bi) ∧
+    List.Sublist (genWords 1 [(1, 1)] ao ai bo bi) (genWords 2 [] ao ai bo bi) ∧
+    ∀ k k', k ≤ k' → List.Sublist (genWords k [] ao ai bo bi) (genWords k' [] ao ai bo bi) := by
+  refine ⟨?_, ?_, ?_⟩
+  · unfold genWords
+    simp only [List.flatMap_nil, List.append_nil]
+    exact List.sublist_append_left _ _
+  · unfold genWords
+    simp only [List.flatMap_nil, List.append_nil, List.flatMap_cons, List.range_succ, List.range_zero,
+      List.nil_append, List.flatMap_append, List.append_assoc]
+    refine List.Sublist.append (List.Sublist.refl _) ?_
+    refine List.Sublist.append (List.Sublist.refl _) ?_
+    refine List.Sublist.append (List.Sublist.refl _) ?_
+    exact (List.sublist_append_left _ _).trans (List.sublist_append_right _ _)
+  · intro k k' hkk
+    unfold genWords
+    simp only [List.flatMap_nil, List.append_nil]
+    refine List.Sublist.append (List.Sublist.refl _) ?_
+    exact List.Sublist.flatMap (List.range_sublist.mpr hkk) _
 
 end Toq.Npa
